@@ -75,6 +75,18 @@ def big_networks():
     ]
 
 
+def scale_networks():
+    """rates of very small and very large magnitude (the chemical master equation depends on k t only): (network, grid)"""
+    A, B, C = 'A', 'B', 'C'
+    slow = [float(i * 2 ** 35) for i in range(4)]          # 3.4e10 per step
+    fast = [i * 2.0 ** -31 for i in range(4)]              # 4.7e-10 per step
+    return [
+        (spec('Z1_slow_1e-11', [A, B, C], {A: 2, B: 0, C: 0}, [ma([A], [B], 1e-11), ma([A], [C], 3e-12), ma([B], [A], 2e-12)]), slow),
+        (spec('Z2_fast_1e9', [A, B, C], {A: 2, B: 0, C: 0}, [ma([A], [B], 1e9), ma([A], [C], 3e8), ma([B], [A], 2e8)]), fast),
+        (spec('Z3_tiny_and_unit', [A, B, C], {A: 1, B: 1, C: 0}, [ma([A], [C], 1e-12), ma([B], [C], 1.5), ma([C], [B], 0.5)]), [0.0, 0.5, 1.0, 1.5]),
+    ]
+
+
 def reachable(sp, cap=200):
     """states reachable from x0 through net stoichiometry staying non-negative (finite nets)"""
     from .ref import crn
